@@ -39,9 +39,11 @@ class Hasher:
         init = cls.methods.get("__init__")
         if init is not None:
             for n in own_nodes(init.node):
-                if isinstance(n, ast.Assign) and len(n.targets) == 1 and isinstance(n.targets[0], ast.Attribute) and isinstance(n.targets[0].value, ast.Name) \
-                        and n.targets[0].value.id == init.self_name:
-                    self.attr_defs.setdefault(n.targets[0].attr, []).append(n.value)
+                if isinstance(n, ast.Assign):
+                    # self.a = self.b = value defines both
+                    for t in n.targets:
+                        if isinstance(t, ast.Attribute) and isinstance(t.value, ast.Name) and t.value.id == init.self_name:
+                            self.attr_defs.setdefault(t.attr, []).append(n.value)
 
     # ------------------------------------------------------------------ normal forms
     def atom_of(self, fn, env=None):
@@ -935,7 +937,15 @@ SPEC_HYBRID = {
 }
 
 
-def judge_facts(ctx, rid, who, facts, spec, accept=None, normalise=None, why=""):
+def _foreign_atoms(v, want):
+    """Attribute / call atoms of the extracted text that do not occur in the specification text."""
+    import re
+    # only plain attributes of the receiver (self.x): an attribute the extractor could not resolve to its definition
+    names = set(re.findall(r"\bself\.[A-Za-z_][A-Za-z_0-9]*(?![A-Za-z_0-9(.])", v))
+    return sorted(n_ for n_ in names if n_ not in want)
+
+
+def judge_facts(ctx, rid, who, facts, spec, accept=None, normalise=None, why="", reduced_attrs=False):
     """Compare extracted facts with a specification table; one obligation per fact."""
     accept = accept or {}
     n = 0
@@ -953,6 +963,10 @@ def judge_facts(ctx, rid, who, facts, spec, accept=None, normalise=None, why="")
             ctx.holds(rid, f.fn, "%s: %s = %s" % (who, k, v), label)
         elif isinstance(v, str) and v.startswith("?"):
             ctx.undecided(rid, f.fn, "%s: %s has a shape the extractor does not understand: %s" % (who, k, v[1:]), label)
+        elif reduced_attrs and isinstance(v, str) and isinstance(want, str) and _foreign_atoms(v, want):
+            # the fact mentions a name the extractor could not reduce to the quantities the specification speaks of (an
+            # attribute defined in a way it does not follow, a call of a helper): nothing can be said by comparing texts
+            ctx.undecided(rid, f.fn, "%s: %s is `%s`, where %s could not be reduced to the quantities of the specification (`%s`)" % (who, k, v, ", ".join(_foreign_atoms(v, want)), want), label)
         else:
             ctx.violated(rid, f.fn, "%s: %s is `%s`; %s requires `%s`" % (who, k, v, why or "the specification", want), label)
     return n
